@@ -49,6 +49,18 @@ CLAIMS = {
         "design_ref": "DESIGN.md section 4 C04",
         "note": "Not decided: the interpolation accuracy of the Toeplitz embedding. Unitary/isometry table is a list of mathematical facts in rules/c04.py; FFT unitarity relies on norm='ortho' (C05).",
     },
+    "C11": {
+        "engine": "E6 paths, shape-provenance domain, E3 value numbering",
+        "category": "other",
+        "technique": "static analysis: must-pass-through on Prox.__call__; abstract interpretation over the shape-provenance lattice {Same, Flat, ?} with interprocedural summaries; eigensolver typestate; canonical-term comparison of every _prox and thresholding function with its documented closed form",
+        "text": "Decides that every proximal call is guarded by input and output shape checks, that no thresholding function or _prox can return the ravelled input on any path, "
+                "that eigenvectors recombined through their conjugate transpose come from eigh, and that all 11 Prox classes and 8 thresholding functions equal their documented "
+                "closed forms (Moreau identity, soft/hard threshold, l2 rescale, l-infinity residual, Duchi threshold search, PSD clipping, L2Reg with rescaled inner step, Stack order, "
+                "UnitaryTransform A^H prox A) as canonical terms on every path, i.e. for all alpha, parameters and inputs.",
+        "design_ref": "DESIGN.md section 4 C11",
+        "note": "Trusted: that the documented closed forms are the minimisers (convex analysis), numpy sort/cumsum/eigh/clip. E3 equality is sound but incomplete: an algebraically "
+                "different yet equivalent rewrite outside the axioms of DESIGN 2.3 would be reported.",
+    },
     "C12": {
         "engine": "E3 value numbering + E2 alias analysis",
         "category": "other",
